@@ -11,6 +11,11 @@ type SoftCollection struct {
 // SetType sets the collection's type.
 func (s *SoftCollection) SetType(typ *Type) {
 	s.Type = typ
+
+	// The resources already in the collection share its type.
+	for i := range s.col {
+		s.col[i].SetType(typ)
+	}
 }
 
 // GetType returns the collection's type.
